@@ -65,6 +65,8 @@ def run(ctx):
                 _tv(ctx)
             if ctx.phase("ctv"):
                 _ctv(ctx)
+            if ctx.phase("stress"):
+                _stress(ctx)
         finally:
             if mc is not None:
                 mc.result()
@@ -159,6 +161,13 @@ def _sig(seg, idx, kind):
     """signature of a rejected observation: policy, what was observed, shape of the current list"""
     e = seg[idx]
     cur = _lists(seg, idx)
+    if e.get("ev") == "batch":
+        ids = {x["id"] for x in cur}
+        got = {x["id"] for x in e["picks"]}
+        obs = "panic" if "panic" in got else ("non-member" if got - ids - {"nil"} else "tally")
+        totw = sum(x["w"] for x in cur)
+        return {"kind": kind, "policy": seg[0]["cfg"]["policy"], "obs": obs, "n": min(len(cur), 3),
+                "totw": 0 if totw == 0 else 1, "zero": any(x["w"] == 0 for x in cur) and totw > 0}
     if kind == "conc":
         # the list current at the call is only known up to the replacements overlapping it: prefer a
         # candidate with total weight 0 (the shape that matters for describing a panic)
@@ -212,9 +221,11 @@ def _validate_seq(ctx, tp, ev, kind, what):
         idx = ln - 1 - st
         bad.add(st)
         e = seg[idx]
+        seen = ("tally %s of %d concurrent selections" % (jdump(e["picks"])[:400], e.get("n", 0)) if e.get("ev") == "batch"
+                else "request with key %s observed %r" % (e.get("k"), e.get("r")))
         ctx.violation(_sig(seg, idx, kind),
-                      "%s: request with key %s observed %r, which the contract does not allow for policy %s with current list %s"
-                      % (what, e.get("k"), e.get("r"), seg[0]["cfg"]["policy"], jdump(_lists(seg, idx))), seg[:idx + 1])
+                      "%s: %s, which the contract does not allow for policy %s with current list %s"
+                      % (what, seen, seg[0]["cfg"]["policy"], jdump(_lists(seg, idx))), seg[:idx + 1])
     good = [s for s in segs if s[0] not in bad]
     ctx.traces(len(good))
     for _st, seg in good:
@@ -267,6 +278,23 @@ def _tv(ctx):
     ctx.sample({"kind": "recorded-trace", "events": ev[:6]})
 
 
+def _stress(ctx):
+    n, steps = (30, 2000) if ctx.quick else (200, 5000)
+    tp = ctx.path("c04_stress.ndjson")
+    rc, out = ctx.go_test(PKG, "^TestVerifC04Stress$", env={"VERIF_OUT": tp, "VERIF_N": n, "VERIF_STEPS": steps}, race=not ctx.quick,
+                          timeout=1200)
+    if "DATA RACE" in out:
+        ctx.violation({"kind": "race"}, "data race reported by the Go race detector in concurrent ChooseServer", out[-4000:])
+        return
+    ev = ctx.read_ndjson(tp)
+    if rc != 0 or not ev:
+        ctx.inconclusive("C04 stress harness failed:\n" + out[-3000:])
+    _check_rejected(ctx, ev, "stress pools")
+    ctx.evals(n)
+    ok, bad = _validate_seq(ctx, tp, ev, "stress", "burst of concurrent selections on the real pool")
+    ctx.log("stress traces: %d validated, %d rejected (%d selections)" % (ok, bad, sum(e.get("n", 0) for e in ev if e.get("ev") == "batch")))
+
+
 def _ctv(ctx):
     n = 40 if ctx.quick else 400
     tp = ctx.path("c04_ctrace.ndjson")
@@ -314,4 +342,5 @@ def _ctv(ctx):
         tp = ctx.write_ndjson("c04_ctrace_%d.ndjson" % _round, flat)
         if not flat:
             return
-    ctx.inconclusive("more than 12 concurrent traces rejected; remaining traces not validated")
+    if not ctx.violations:
+        ctx.inconclusive("more than 12 concurrent traces rejected; remaining traces not validated")
